@@ -20,7 +20,7 @@ from .chooser import derive_seed
 VERIF = os.path.dirname(os.path.dirname(os.path.abspath(__file__)))
 KNOWN_FILE = os.path.join(VERIF, "known_findings.json")
 REPLAY_DIR = os.path.join(VERIF, "replays")
-EVIDENCE_DIR = os.path.join(VERIF, "evidence")
+EVIDENCE_DIR = os.environ.get("VERIF_EVIDENCE_DIR") or os.path.join(VERIF, "evidence")
 
 COMPONENTS = {
     "real": [
